@@ -34,3 +34,24 @@ pub mod expansion {
         ensures r is Ok ==> r->Ok_0@ == expand_heredoc_spec(*word, *old(shell))
     { unimplemented!() }
 }
+// ---- here-document bodies subject to expansion (POSIX XCU 2.7.4: "<backslash> in the here-document shall behave as the
+//  <backslash> inside double-quotes"; 2.2.1: <backslash><newline> is a line continuation and is removed; bash removes it while
+//  reading the body, before any expansion).  A newline after an ESCAPED backslash is an ordinary newline.
+pub open spec fn remove_cont(s: Seq<char>) -> Seq<char> decreases s.len() {
+    if s.len() == 0 { Seq::empty() }
+    else if s[0] == '\\' {
+        if s.len() == 1 { seq!['\\'] }
+        else if s[1] == '\n' { remove_cont(s.skip(2)) }
+        else { seq!['\\', s[1]] + remove_cont(s.skip(2)) }
+    }
+    else { seq![s[0]] + remove_cont(s.skip(1)) }
+}
+// what is still to come when the scan has consumed a prefix and `pending` says the last character was an unescaped backslash
+pub open spec fn remove_cont_from(pending: bool, rest: Seq<char>) -> Seq<char> {
+    if !pending { remove_cont(rest) }
+    else if rest.len() == 0 { seq!['\\'] }
+    else if rest[0] == '\n' { remove_cont(rest.skip(1)) }
+    else { seq!['\\', rest[0]] + remove_cont(rest.skip(1)) }
+}
+pub assume_specification [std::string::String::with_capacity] (n: usize) -> (r: std::string::String)
+    ensures r@ == Seq::<char>::empty();
